@@ -85,4 +85,13 @@ def core_py(e, elem=False):
         return all(el(x) for x in e.elts)
     if t == "Set":
         return len(e.elts) >= 1 and all(el(x) for x in e.elts)
+    if t == "Dict":
+        return len(e.keys) == len(e.values) and all(k is None or c(k) for k in e.keys) and all(c(v) for v in e.values)
+    if t in ("ListComp", "SetComp", "DictComp"):
+        def target(x):
+            return isinstance(x, ast.Name) or (isinstance(x, (ast.Tuple, ast.List)) and all(isinstance(y, ast.Name) for y in x.elts))
+        gens = len(e.generators) >= 1 and all(target(g.target) and c(g.iter) and all(c(i) for i in g.ifs) and not g.is_async
+                                               for g in e.generators)
+        heads = (c(e.key) and c(e.value)) if t == "DictComp" else c(e.elt)
+        return gens and heads
     return False
